@@ -28,7 +28,7 @@ func init() {
 
 type superGraph struct {
 	root     *ssa.Function
-	callSite map[*ssa.Function]*ssa.Call // closure -> its unique direct call (IIFE)
+	callSite map[*ssa.Function]*ssa.Call   // closure -> its unique direct call (IIFE)
 	dyn      map[*ssa.Call][]*ssa.Function // call of a closure value returned by an IIFE -> candidates
 }
 
